@@ -21,6 +21,7 @@
 //                          body_inertia, xipos, ximat, qfrc_bias, rne0 (mj_rne flg_acc=0), tbias (mj_tendonBias on
 //                          zeros), cinert
 //   jac b                  mj_jacBodyCom(m, d, jacp, jacr, b)                        -> jacp 3nv .. jacr 3nv ..
+//   round v(nv) y(nv)      Mv = mj_mulM(v); x1 = mj_solveM(Mv); x2 = mj_solveM(y); r2 = mj_mulM(x2)   -> Mv x1 x2 r2
 //   rne flg                mj_rne(m, d, flg, res) with the current d->qacc           -> nv floats
 //   cross vel(6) v(6) f(6) mju_crossMotion(vel, v), mju_crossForce(vel, f)           -> 6 + 6 floats
 //   inert inertia(3) quat(4) dif(3) mass v(6)
@@ -155,6 +156,7 @@ int main(void) {
       char err[1024];
       m = mjb_compile(f, &spec, err, sizeof err);
       fclose(f);
+      for (char* c = err; *c; c++) if (*c == '\n' || *c == '\r') *c = ' ';
       if (!m) printf("error %s\n", err);
       else {
         d = mj_makeData(m);
@@ -245,6 +247,19 @@ int main(void) {
         }
         free(y); free(x);
       }
+    } else if (!strcmp(op, "round") && n == 1 + 2 * nv) {
+      double* v = (double*)malloc(sizeof(double) * (2 * nv + 1));
+      double* r = (double*)malloc(sizeof(double) * (4 * nv + 1));
+      if (!getv(tok + 1, 2 * nv, v)) printf("bad-op\n");
+      else {
+        mj_mulM(m, d, r, v);                       // r   = M v
+        mj_solveM(m, d, r + nv, r, 1);             // x1  = M^-1 (M v)
+        mj_solveM(m, d, r + 2 * nv, v + nv, 1);    // x2  = M^-1 y
+        mj_mulM(m, d, r + 3 * nv, r + 2 * nv);     // r2  = M (M^-1 y)
+        printf("round"); pvec("Mv", r, nv); pvec("x1", r + nv, nv); pvec("x2", r + 2 * nv, nv); pvec("r2", r + 3 * nv, nv);
+        printf("\n");
+      }
+      free(v); free(r);
     } else if (!strcmp(op, "dump") && n == 1) {
       op_dump();
     } else if (!strcmp(op, "jac") && n == 2) {
